@@ -27,6 +27,8 @@ def _op(o):
         lab = o["label"]["l"] if o["label"]["h"] else ""
         return {"op": "distribute", "src": o["src"] - 1, "col": o["col"], "dst": o["dst"] - 1, "dw": o["dw"], "vol": o["vol"],
                 "md": o["md"], "reuse": o["reuse"], "label": lab, "dir": o["dir"], "lc": o["lc"]}
+    if name == "setconfig":
+        return {"op": "setconfig", "maxv": o["maxv"], "autosplit": o["autosplit"]}
     raise RuntimeError(f"unknown model operation {name}")
 
 
